@@ -37,7 +37,8 @@ def seeds_block():
     for mp in sorted(glob.glob(os.path.join(VERIF, 'seeded', '*', 'meta.json'))):
         m = json.load(open(mp))
         tot += 1
-        rnd = 2 if 'round 2' in m.get('source', '') else (3 if 'round 3' in m.get('source', '') else 1)
+        mm = re.search(r'round (\d+)', m.get('source', ''))
+        rnd = int(mm.group(1)) if mm else 1
         c = m.get('outcome') == 'caught'
         caught += c
         by_round.setdefault(rnd, [0, 0])
